@@ -44,8 +44,8 @@ ASSUMPTIONS = {"*": [
     "pre-emption points are line (10%: opcode) events in files under /repo/ctparse",
     "a RandomScorer is part of the arguments: each call gets a fresh one from the same seed",
 ]}
-EXPECTED_FAULTS = {"C12": ["abandon", "leak", "callback_raise", "deadline", "preempt",
-                           "hashseed", "fresh_process"]}
+EXPECTED_FAULTS = {"C12": ["abandon", "leak", "callback_raise", "library_call_raised", "deadline",
+                           "preempt", "hashseed", "fresh_process"]}
 DETERMINISM_SAMPLE = {"quick": 3, "thorough": 8}
 EXHAUSTIVE = {}
 MIN_CASES = {'quick': 300, 'thorough': 5000}
@@ -381,6 +381,31 @@ class World:
             except InjectedFailure:
                 self.stats["faults"]["callback_raise"] += 1
                 self.obs.append([i, "FAIL", e, "raised"])
+            except Exception as ex:
+                # the library itself raised before the caller's scorer did: compare with what a
+                # fresh process does for this entry (normally: it completes)
+                got = {"exc": "%s: %s" % (type(ex).__name__, ex)}
+                self.obs.append([i, "FAIL", e, core.short(got)])
+                self.check_call(e, got, where)
+        elif kind == "CRASH":
+            # a call that fails inside the library itself: the answer is not representable
+            # (reference time at the very end / start of the datetime range), so a production
+            # raises. Whatever happens here, later calls must be unaffected.
+            from datetime import datetime as _dt
+            txt, ts_ = op["how"]
+            try:
+                if op.get("gen"):
+                    g = lib["ctparse"].ctparse_gen(txt, ts=_dt.fromisoformat(ts_), timeout=0)
+                    for _ in range(op.get("steps", 50)):
+                        next(g)
+                else:
+                    lib["ctparse"].ctparse(txt, ts=_dt.fromisoformat(ts_), timeout=0)
+                self.obs.append([i, "CRASH", "completed"])
+            except StopIteration:
+                self.obs.append([i, "CRASH", "exhausted"])
+            except Exception as e_:
+                self.stats["faults"]["library_call_raised"] += 1
+                self.obs.append([i, "CRASH", type(e_).__name__])
         elif kind == "TIMEOUT":
             e = op["e"]
             log = []
@@ -756,8 +781,18 @@ def _client_script(rng, c, n_entries, handle_base):
                 for _ in range(rng.choice([3, 30])):
                     ops.append({"op": "STEP", "h": h, "c": c})
             h += 1
-        elif r < 0.88:
+        elif r < 0.85:
             ops.append({"op": "FAIL", "e": e, "k": rng.choice([1, 2, 3, 5, 9, 17, 40]), "c": c})
+        elif r < 0.88:
+            ops.append({"op": "CRASH", "c": c, "gen": rng.random() < 0.4, "steps": rng.choice([1, 3, 50]),
+                        "how": rng.choice([["tomorrow", "9999-12-31T10:00:00"],
+                                           ["übermorgen 5pm", "9999-12-31T23:59:59"],
+                                           ["yesterday", "0001-01-01T00:00:00"],
+                                           ["next monday 8-9", "9999-12-30T12:00:00"],
+                                           ["heute für 3 tage", "9999-12-31T00:00:00"],
+                                           ["5pm tomorrow morning", "9999-12-31T10:00:00"]])})
+            if rng.random() < 0.7:
+                ops.append({"op": "CALL", "e": e, "c": c})
         else:
             ops.append({"op": "TIMEOUT", "e": e, "k": rng.choice([1, 2, 3, 5, 9, 17, 40, 90]),
                         "c": c, "single": rng.random() < 0.4})
@@ -885,6 +920,44 @@ def plan(prop, tier, seed):
         ops += [{"op": "STEP", "h": 1, "c": 1}] * 60
         ops.append({"op": "CALL", "e": r.randrange(2), "c": 1, "checkpoint": True})
         cases.append({"kind": "task", "pool": [e, e2], "ops": ops, "hashseeds": hashseeds})
+    # -- offset scenarios: the same expression at DIFFERENT character offsets in two (or three)
+    #    streams that are alive at once and stepped alternately: a value object shared between
+    #    parses (a module-level constant, a memo entry) gets its span re-stamped by the other
+    #    stream while this one still holds it un-emitted
+    for i in range(160 if quick else 1500):
+        r = core.stream(core.derive_seed(base, "offset", i), "sched")
+        e_ = r.choice(workload.CLOCKS[-8:] + workload.CLOCKS[-8:] + workload.CLOCKS
+                      + workload.PODS + workload.DURS + workload.RELDAYS[:9] + workload.DOWS)
+        t1 = r.choice(["%s", "%s", "at %s", "%s #x"]) % e_
+        t2 = r.choice(["tomorrow from %s until %s", "call bob %s", "heute %s", "am freitag %s",
+                       "%s - %s", "lunch with anna and bob %s", "from %s to %s", "x %s"])
+        t2 = t2.replace("%s", e_, 1)
+        if "%s" in t2:
+            t2 = t2.replace("%s", r.choice([e_, r.choice(workload.CLOCKS[-8:]),
+                                            r.choice(workload.CLOCKS)]), 1)
+        if len(t2) > 60:
+            continue
+        ts_ = fmt_ts(workload.ref_time(r, 2016, 2043))
+        lat = r.random() < 0.25      # (spans of bare times are visible with anchoring off)
+        e1 = {"text": t1, "ts": ts_, "latent_time": lat}
+        e2 = {"text": t2, "ts": ts_, "latent_time": lat, "max_stack_depth": 10}
+        if r.random() < 0.3:
+            e1["scorer"] = e2["scorer"] = "dummy"
+        ops = [{"op": "OPEN", "h": 0, "e": 1, "c": 0}]
+        ops += [{"op": "STEP", "h": 0, "c": 0}] * r.choice([0, 1, 1, 2, 3, 5])
+        ops.append({"op": "OPEN", "h": 1, "e": 0, "c": 1})
+        a_left, b_left = 70, 40
+        while a_left or b_left:
+            if b_left and (not a_left or r.random() < 0.5):
+                ops.append({"op": "STEP", "h": 1, "c": 1})
+                b_left -= 1
+            else:
+                ops.append({"op": "STEP", "h": 0, "c": 0})
+                a_left -= 1
+            if r.random() < 0.04:
+                ops.append({"op": "CALL", "e": 0, "c": 1})
+        ops.append({"op": "CALL", "e": 1, "c": 0, "checkpoint": True})
+        cases.append({"kind": "task", "pool": [e1, e2], "ops": ops, "hashseeds": hashseeds})
     # -- instant aliases: one text, reference times that denote the same instant in zones
     #    whose local dates differ (aware datetimes compare and hash by instant)
     for i in range(70 if quick else 900):
